@@ -52,6 +52,9 @@ M = {
  "closeness of directed networks uses": ("C03", "closeness() on directed networks called igraph with its default mode (directions ignored): directed 3-cycle gave [1,1,1] instead of 2/3 and disagreed with closeness(link_attribute) at unit lengths"),
  "rank tied values by their average rank": ("C10", "SpearmanClimateNetwork ranked with a double argsort (ties broken by position): rho 0.857 instead of 0.8 on data with tied samples"),
  "rejects lag ranges its 8 bit lag matrix": ("C10 C20", "CouplingAnalysis.cross_correlation(tau_max=140, lag_mode='max'): true lag 130 reported as -126 (lag matrix is int8; finding #18)"),
+ "setters update the network they belong to": ("C01 C07", "InterSystemRecurrenceNetwork.set_fixed_threshold/_recurrence_rate called after construction replaced rp_x/rp_y/crp_xy but not the adjacency: thresholds (1,1,1) then set_fixed_threshold((1.6,1.4,1.8)) gave n_links 56 vs 74 for a fresh object"),
+ "ClimateNetwork.Load reads what": ("C05", "ClimateNetwork.Load raised on every input (np.load without allow_pickle on an ndarray.dump file; constructor called without threshold / link density): n.save((a.graphml, g.pkl, s.npy)); ClimateNetwork.Load(same) -> ValueError / AttributeError"),
+ "GeoGrid.LoadTXT reads grids with a single": ("C05 C12", "GeoGrid(np.arange(1.), lat, lon).save_txt(f); GeoGrid.LoadTXT(f) raised TypeError: len() of unsized object"),
  "vanishing Fourier amplitudes": ("C15", "refined_AAFT_surrogates returned NaN rows when a Fourier coefficient of the iterate was exactly zero (e.g. [1,-1,2,-2,3,-3,0,0])"),
 }
 fixed = []
@@ -68,12 +71,11 @@ known = [
  {"property": "C04", "match": r"^bounded:(Network|GeoNetwork|SpatialNetwork|RecurrenceNetwork|InteractingNetworks|ResNetwork)\.(link_betweenness|edge_betweenness)/relabel-directed$", "what": "link_betweenness on directed networks writes igraph's directed edge values back through an i<j enumeration: [[0,1],[0,0]] gives [[0,1],[1,0]] but [[0,0],[1,0]] gives zeros"},
  {"property": "C04", "match": r"^bounded:(Network|GeoNetwork|SpatialNetwork|RecurrenceNetwork|InteractingNetworks|ResNetwork)\.(transitivity|higher_order_transitivity\[3\]|transitivity_dim_single_scale.*)/relabel-directed$", "what": "transitivity on directed networks depends on the numbering: [[0,1,1],[1,0,1],[0,0,0]] gives 0.857, the same graph numbered [[0,1,1],[0,0,0],[1,1,0]] gives 0.4286"},
  {"property": "C04", "match": r"^bounded:GeoNetwork\.(in|out)?area_weighted_connectivity(_cumulative)?_distribution/relabel-binning$", "what": "geographical_distribution puts the maximal element into bin n_bins-1 or n_bins-2 depending on float32 rounding of the order of summation"},
- {"property": "C05", "match": r"^bounded:(SpatialNetwork\.|GeoNetwork\.)?save_load\[gml\]/node_weights$", "what": "igraph's GML writer strips '_' from attribute names: node_weight_nsi is written as nodeweightnsi and Load returns unit (or cos-lat) weights"},
+ {"property": "C05", "match": r"^bounded:(SpatialNetwork\.|GeoNetwork\.|ClimateNetwork\.)?save_load\[gml\]/node_weights$", "what": "igraph's GML writer strips '_' from attribute names: node_weight_nsi is written as nodeweightnsi and Load returns unit (or cos-lat) weights"},
  {"property": "C05", "match": r"^bounded:adjacency_setter/known29-N-change-node-weights$", "what": "adjacency.setter can change N while node_weights keep their old length (finding #29)"},
  {"property": "C07", "match": r"^bounded:RecurrenceNetwork/missing/(rqa-size-consistent-with-R|setter/adjacency-is-R-without-diagonal)$", "what": "RecurrenceNetwork(missing_values=True) with a NaN state: self.N becomes the order of the reduced network while R keeps its full order (recurrence_rate() 0.625 instead of 0.4; first set_* call uses the wrong diagonal stride)"},
  {"property": "C09", "match": r"^bounded:consistency/undirected-adjacency-symmetric$", "what": "HavlinClimateNetwork(SmallTestData, max_delay=3): similarity is asymmetric (S[0,1]=4.94, S[1,0]=4.16) but the network is declared undirected"},
  {"property": "C10", "match": r"^bounded:mutual_information/binning-lagged-norm$", "what": "binned MI with tau_max > 0 normalises entropies by T instead of T - tau_max (factor 0.9 for T=60, tau_max=6); the suite pins the current values (test_mutual_information_binning), so it cannot be repaired without editing a test"},
- {"property": "C01", "match": r"^bounded:InterSystemRecurrenceNetwork\.set_fixed_(threshold|recurrence_rate)/fresh-twin$", "what": "InterSystemRecurrenceNetwork.set_fixed_threshold/_recurrence_rate called after construction replace rp_x/rp_y/crp_xy but not the adjacency: lengths 7 and 6, thresholds (1,1,1) then set_fixed_threshold((1.6,1.4,1.8)) gives n_links 56 vs 74 fresh"},
  {"property": "C01", "match": r"^bounded:HilbertClimateNetwork\.set_(threshold|link_density|non_local)/directed-fresh-twin$", "what": "HilbertClimateNetwork(directed=True): the inherited regenerating setters drop the phase-direction mask (22 links vs 11 fresh)"},
  {"property": "C01", "match": r"^bounded:ClimateNetwork\.del_link_attribute/(derived-attribute-recomputed|cache-cleared|fresh-twin)$", "what": "after del_link_attribute('inv_correlation_distance') the cached inv_correlation_distance() does not reinstall the link attribute and correlation_distance_weighted_closeness() raises"},
  {"property": "C06", "match": r"^bounded:Surrogates\.test_threshold_significance/caller-array-unchanged$", "what": "Surrogates keeps the caller's array and test_threshold_significance normalises it in place (finding #11)"},
